@@ -314,8 +314,8 @@ pub fn t_cut<S: Shape>(inp: &mut Inp, k0: usize, k1: usize) {
     reached();
 }
 
-pub fn pick_kind(inp: &mut Inp) -> io::ErrorKind {
-    match inp.below(8) {
+pub fn kind_of(i: usize) -> io::ErrorKind {
+    match i {
         0 => io::ErrorKind::ConnectionReset,
         1 => io::ErrorKind::ConnectionAborted,
         2 => io::ErrorKind::TimedOut,
@@ -327,31 +327,259 @@ pub fn pick_kind(inp: &mut Inp) -> io::ErrorKind {
     }
 }
 
-/// the source fails with ∀ kind at offset k: parse returns Err(IoError) carrying that kind
-pub fn t_fault<S: Shape>(inp: &mut Inp, k0: usize, k1: usize) {
+fn fault_once<S: Shape>(w: &'static [u8], k: usize, kind: io::ErrorKind) {
+    let mut src = Src::new(w, 0);
+    src.fail = Some((k, kind));
+    let r = IppParser::new(IppReader::new(src)).parse();
+    match r {
+        Ok(m) => {
+            core::mem::forget(m);
+            assert!(false, "a message whose source failed before the end tag was accepted");
+        }
+        Err(IppParseError::IoError(e)) => {
+            assert!(e.kind() == kind, "the I/O error kind is propagated unchanged");
+            core::mem::forget(e);
+        }
+        Err(e) => {
+            core::mem::forget(e);
+            assert!(false, "source failure must surface as an I/O error");
+        }
+    }
+}
+
+/// the source fails with error kind number `ki` at every offset in k0..k1
+pub fn t_fault<S: Shape>(inp: &mut Inp, k0: usize, k1: usize, ki: usize) {
     let x = draw::<S>(inp);
-    let kind = pick_kind(inp);
     let w = leak_vec(S::wire(&x));
     let mut k = k0;
     while k < k1 && k < S::LEN {
-        let mut src = Src::new(w, 0);
-        src.fail = Some((k, kind));
-        let r = IppParser::new(IppReader::new(src)).parse();
-        match r {
-            Ok(m) => {
-                core::mem::forget(m);
-                assert!(false, "a message whose source failed before the end tag was accepted");
+        fault_once::<S>(w, k, kind_of(ki));
+        k += 1;
+    }
+    reached();
+}
+
+/// every one of the 8 error kinds at three offsets: inside the header, inside the first
+/// attribute's name field, and on the last byte before the end tag
+pub fn t_fault_kinds<S: Shape>(inp: &mut Inp) {
+    let x = draw::<S>(inp);
+    let w = leak_vec(S::wire(&x));
+    let offs = [3usize, 11, S::LEN - 1];
+    let mut ki = 0;
+    while ki < 8 {
+        let mut j = 0;
+        while j < 3 {
+            if offs[j] < S::LEN {
+                fault_once::<S>(w, offs[j], kind_of(ki));
             }
+            j += 1;
+        }
+        ki += 1;
+    }
+    reached();
+}
+
+// ------------------------------------------------------------------------------------------ async
+use futures_util::io::AsyncRead;
+use std::future::Future;
+use std::pin::Pin;
+use std::task::{Context, Poll};
+
+/// Async source with a concrete delivery schedule and symbolic contents.
+/// mode 0: every poll ready, satisfied in full; 1: one byte per poll; 2: alternating 1/2 bytes;
+/// mode 4: one byte per poll and `Pending` (with an immediate wake-up) before every delivery;
+/// mode 5: full reads, `Pending` twice before every delivery.
+pub struct ASrc {
+    pub data: &'static [u8],
+    pub pos: usize,
+    pub mode: u8,
+    pub calls: usize,
+    pub pended: u8,
+    pub fail: Option<(usize, io::ErrorKind)>,
+}
+
+impl ASrc {
+    pub fn new(data: &'static [u8], mode: u8) -> ASrc {
+        ASrc { data, pos: 0, mode, calls: 0, pended: 0, fail: None }
+    }
+}
+
+impl AsyncRead for ASrc {
+    fn poll_read(mut self: Pin<&mut Self>, cx: &mut Context<'_>, buf: &mut [u8]) -> Poll<io::Result<usize>> {
+        let want_pend: u8 = match self.mode {
+            4 => 1,
+            5 => 2,
+            _ => 0,
+        };
+        if self.pended < want_pend {
+            self.pended += 1;
+            cx.waker().wake_by_ref();
+            return Poll::Pending;
+        }
+        self.pended = 0;
+        self.calls += 1;
+        if let Some((k, kind)) = self.fail {
+            if self.pos >= k {
+                return Poll::Ready(Err(kind.into()));
+            }
+        }
+        let rem = self.data.len() - self.pos;
+        let mut n = if buf.len() < rem { buf.len() } else { rem };
+        if let Some((k, _)) = self.fail {
+            if n > k - self.pos {
+                n = k - self.pos;
+            }
+        }
+        let want = match self.mode {
+            0 | 5 => n,
+            2 => 1 + (self.calls % 2),
+            _ => 1,
+        };
+        if n > want {
+            n = want;
+        }
+        let p = self.pos;
+        buf[..n].copy_from_slice(&self.data[p..p + n]);
+        self.pos += n;
+        Poll::Ready(Ok(n))
+    }
+}
+
+/// drive one future to completion with a no-op waker (a single future polled in a loop: a deferred
+/// wake-up is indistinguishable from an immediate one)
+pub fn block<F: Future>(f: F) -> F::Output {
+    // pinned on the stack: a boxed coroutine's state discriminant would live in a heap byte buffer,
+    // where the model checker cannot keep it constant (every poll would explore every state)
+    let mut f = core::pin::pin!(f);
+    let waker = futures_util::task::noop_waker();
+    let mut cx = Context::from_waker(&waker);
+    let mut polls = 0;
+    loop {
+        if let Poll::Ready(r) = f.as_mut().poll(&mut cx) {
+            return r;
+        }
+        polls += 1;
+        assert!(polls < 400, "future did not complete");
+    }
+}
+
+// ------------------------------------------------------------------------------------------ C05
+/// async parser on a well-formed shape under a delivery/readiness schedule: same result as the
+/// reference (which C04 shows the blocking parser returns), same reader position, same payload
+pub fn t_async<S: Shape>(inp: &mut Inp, mode: u8, plen: usize) {
+    let x = draw::<S>(inp);
+    let mut w = S::wire(&x);
+    let mut pay = [0u8; 8];
+    let mut k = 0;
+    while k < plen {
+        pay[k] = inp.u8();
+        w.push(pay[k]);
+        k += 1;
+    }
+    let w = leak_vec(w);
+    // blocking parser on the same bytes
+    let sync = IppParser::new(IppReader::new(Cursor::new(w))).parse_parts();
+    let asy = block(ipp::parser::AsyncIppParser::new(ipp::reader::AsyncIppReader::new(ASrc::new(w, mode))).parse_parts());
+    match (sync, asy) {
+        (Ok((h1, a1, r1)), Ok((h2, a2, r2))) => {
+            check_header(&h1, &x);
+            check_header(&h2, &x);
+            S::check(&a1, &x);
+            S::check(&a2, &x);
+            assert!(r1.into_inner().position() as usize == S::LEN, "blocking parser stops after the end tag");
+            assert!(r2.into_inner().pos == S::LEN, "async parser stops after the end tag");
+            core::mem::forget(a1);
+            core::mem::forget(a2);
+        }
+        (s, a) => {
+            core::mem::forget(s);
+            core::mem::forget(a);
+            assert!(false, "both parsers must accept a well-formed message");
+        }
+    }
+    reached();
+}
+
+fn same_error(a: &IppParseError, b: &IppParseError) -> bool {
+    match (a, b) {
+        (IppParseError::InvalidTag(x), IppParseError::InvalidTag(y)) => x == y,
+        (IppParseError::InvalidCollection, IppParseError::InvalidCollection) => true,
+        (IppParseError::IoError(x), IppParseError::IoError(y)) => x.kind() == y.kind(),
+        _ => false,
+    }
+}
+
+/// truncated at every cut in k0..k1: both parsers fail, with the same error kind
+pub fn t_async_cut<S: Shape>(inp: &mut Inp, mode: u8, k0: usize, k1: usize) {
+    let x = draw::<S>(inp);
+    let w = leak_vec(S::wire(&x));
+    let mut k = k0;
+    while k < k1 && k < S::LEN {
+        let s = IppParser::new(IppReader::new(Cursor::new(&w[..k]))).parse_parts();
+        let a = block(ipp::parser::AsyncIppParser::new(ipp::reader::AsyncIppReader::new(ASrc::new(&w[..k], mode))).parse_parts());
+        match (s, a) {
+            (Err(e1), Err(e2)) => {
+                assert!(same_error(&e1, &e2), "same error from both parsers");
+                match &e2 {
+                    IppParseError::IoError(e) => assert!(e.kind() == io::ErrorKind::UnexpectedEof, "truncation is UnexpectedEof"),
+                    _ => assert!(false, "truncation must be an I/O error"),
+                }
+                core::mem::forget(e1);
+                core::mem::forget(e2);
+            }
+            (s, a) => {
+                core::mem::forget(s);
+                core::mem::forget(a);
+                assert!(false, "a proper prefix was accepted");
+            }
+        }
+        k += 1;
+    }
+    reached();
+}
+
+/// the async source fails with error kind number `ki` at offsets k0..k1: Err(IoError) with that kind
+pub fn t_async_fault<S: Shape>(inp: &mut Inp, k0: usize, k1: usize, ki: usize) {
+    let x = draw::<S>(inp);
+    let kind = kind_of(ki);
+    let w = leak_vec(S::wire(&x));
+    let mut k = k0;
+    while k < k1 && k < S::LEN {
+        let mut src = ASrc::new(w, 1);
+        src.fail = Some((k, kind));
+        let a = block(ipp::parser::AsyncIppParser::new(ipp::reader::AsyncIppReader::new(src)).parse_parts());
+        match a {
             Err(IppParseError::IoError(e)) => {
                 assert!(e.kind() == kind, "the I/O error kind is propagated unchanged");
                 core::mem::forget(e);
             }
-            Err(e) => {
-                core::mem::forget(e);
+            other => {
+                core::mem::forget(other);
                 assert!(false, "source failure must surface as an I/O error");
             }
         }
         k += 1;
+    }
+    reached();
+}
+
+// ------------------------------------------------------------------------------------------ C02 (after parsing)
+/// what a parser returned can be cloned, re-encoded and dropped (really dropped) without panicking;
+/// the re-encoding is again an RFC 8010 reference encoding of the shape
+pub fn t_reuse<S: Shape>(inp: &mut Inp) {
+    let x = draw::<S>(inp);
+    S::canonical(&x);
+    let w = leak_vec(S::wire(&x));
+    match IppParser::new(IppReader::new(Cursor::new(w))).parse() {
+        Ok(m) => {
+            let c = m.attributes().clone();
+            let b = encode(m.header(), &c);
+            assert!(b.len() >= 9);
+            drop(c);
+            drop(m);
+            core::mem::forget(b);
+        }
+        Err(e) => core::mem::forget(e),
     }
     reached();
 }
